@@ -47,3 +47,19 @@ __CPROVER_ensures(page->slice_count == g_sc0 && page->slice_offset == g_so0 && p
 __CPROVER_ensures(page->capacity == 0 && page->reserved == 0 && page->used == 0 && page->free == NULL && page->local_free == NULL && page->xthread_free == 0 && page->xheap == 0 &&
                   page->next == NULL && page->prev == NULL && !page->is_zero_init && page->block_size == 1 && page->flags.full_aligned == 0);
 #endif
+
+#ifdef VC_CBMC
+/* ---- mi_segment_free: a segment without pages in use goes back exactly once (unless its memory must stay valid: dont_free); its free spans leave the span
+   queues first.  The walk over span heads has a loop contract; every head has a positive count (segment well-formed), which is what makes the walk advance. ---- */
+size_t g_sosf_n; mi_segment_t* g_sosf_p; size_t g_srm_n;
+static void c_segment_os_free_rec(mi_segment_t* segment, mi_segments_tld_t* tld) __CPROVER_requires(1) __CPROVER_assigns(g_sosf_n, g_sosf_p)
+__CPROVER_ensures(g_sosf_n == __CPROVER_old(g_sosf_n) + 1 && g_sosf_p == segment);
+static void c_span_remove_rec2(mi_slice_t* slice, mi_segments_tld_t* tld) __CPROVER_requires(slice->block_size == 0 && slice->slice_count >= 1)   /* call-site obligation: a free span head */
+__CPROVER_assigns(g_srm_n) __CPROVER_ensures(g_srm_n == __CPROVER_old(g_srm_n) + 1);
+size_t g_fw2;       /* witness slice index used by the loop invariant's instance of "every span head has a positive count" */
+static void mi_segment_free(mi_segment_t* segment, bool force, mi_segments_tld_t* tld)
+__CPROVER_requires(segment == g_pseg && g_sosf_n == 0 && g_srm_n == 0 && segment->used == 0 && segment->slice_entries >= 1 && segment->slice_entries <= MI_SLICES_PER_SEGMENT)
+__CPROVER_assigns(g_sosf_n, g_sosf_p, g_srm_n)
+__CPROVER_ensures(segment->dont_free ? (g_sosf_n == 0 && g_srm_n == 0) : (g_sosf_n == 1 && g_sosf_p == segment))
+__CPROVER_ensures(segment->kind == MI_SEGMENT_HUGE ==> g_srm_n == 0);
+#endif
